@@ -39,6 +39,7 @@ type Case struct {
 	tags       []string
 	obs        map[string]float64
 	sets       map[string][]string
+	history    string
 }
 
 // Call counts one library call (for the evidence).
@@ -136,6 +137,10 @@ type Monitor struct {
 	// Race asks run.sh for a -race build.
 	Race bool
 }
+
+// BeforeCase, if set, is called before 5 % of the cases (separate PRNG stream) to issue one hostile library call whose
+// outcome is ignored; it returns a description of the call.
+var BeforeCase func(prop string, r *Rng) string
 
 var registry = map[string]*Monitor{}
 
